@@ -44,6 +44,9 @@ def schedule_strategy(modes=(True, False), meas_modes=('list', 'list', 'list', '
             't0': st.sampled_from([0.0, 100.0, -3.5]),
             'gap_at': st.integers(1, 63),
             'gap_len': st.integers(3, 50),
+            'gap_dt': st.sampled_from(['span', 'span', 'nominal']),        # dt column over a gap: its length, or an outage (the row after the gap covers its own interval only)
+            'inc_cover': st.sampled_from(['full', 'full', 'holes']),       # feedforward only: increments table with missing rows
+            'twin': st.sampled_from([False, False, False, True]),          # a second stream of the first sensor's class (second antenna / receiver)
             'sub': st.integers(0, 2 ** 31 - 1),
             'sensors': st.lists(sensor, min_size=1, max_size=3, unique_by=lambda s: s['cls']),
             'shared': st.lists(epoch_strategy(), min_size=0, max_size=3),
@@ -115,6 +118,9 @@ class Scenario:
         n = len(t) - 1
         rng = np.random.RandomState(case['sub'] ^ 0x1234567)
         dts = np.diff(t)
+        if gap_i is not None and case.get('gap_dt', 'span') == 'nominal':
+            dts = dts.copy()
+            dts[gap_i] = case['base_dt']          # the stamps jump, the increment covers only its own sampling interval (also at row 0)
         # gentle 3-axis motion: small rates, specific force ~ reaction to gravity
         w = 0.05 * np.column_stack([np.sin(0.7 * t[1:] + 0.3), np.cos(0.5 * t[1:]), 0.6 * np.sin(0.3 * t[1:] + 1)])
         f = np.column_stack([0.3 * np.sin(0.4 * t[1:]), 0.2 * np.cos(0.6 * t[1:]), -9.81 + 0.1 * np.sin(0.9 * t[1:])])
@@ -148,6 +154,25 @@ class Scenario:
             else:
                 m = measurements.BodyVelocity(data[['VX', 'VY', 'VZ']], 0.3)
             self.measurements.append(m)
+        if case.get('twin') and case['sensors']:
+            # a second stream of the first sensor's class with its own lever arm: half of its samples interleave with the
+            # first stream's (mid-way to the next sample), half coincide with them; innovations are reported per class name
+            s = case['sensors'][0]
+            first = self.samples[s['cls']]
+            if len(first):
+                nxt = np.r_[first[1:], first[-1] + 2 * case['base_dt']]
+                times = np.unique(np.where(np.arange(len(first)) % 2 == 0, 0.5 * (first + nxt), first))
+                data = self._truth_at(times, rng)
+                arm = np.array([-2.0, 0.4, 0.1])
+                if s['cls'] == 'Position':
+                    m = measurements.Position(data[['lat', 'lon', 'alt']], 2.0, arm)
+                elif s['cls'] == 'NedVelocity':
+                    m = measurements.NedVelocity(data[['VN', 'VE', 'VD']], 0.3, arm)
+                else:
+                    m = measurements.BodyVelocity(data[['VX', 'VY', 'VZ']], 0.3)
+                self.measurements.insert(int(rng.randint(len(self.measurements) + 1)), m)
+                self.samples[s['cls']] = np.sort(np.r_[first, times])
+                self.twin = True
         self._classify()
 
     def _truth_at(self, times, rng):
@@ -208,6 +233,8 @@ class Scenario:
             labels.add('imu_gap')
             if len(inside) and np.any((inside > t[self.gap_i]) & (inside < t[self.gap_i + 1])):
                 labels.add('epoch_inside_gap')
+        if getattr(self, 'twin', False):
+            labels.add('two_streams_of_one_class')
         self.labels = labels
 
     def time_step(self):
